@@ -14,7 +14,7 @@ Strict assertions only when exactly one terminating cause occurred (otherwise co
 """
 
 from . import generic
-from .common import V, View, docs_by_run
+from .common import V, View, docs_by_run, monitor_lost_in_flight
 
 ID = "C02"
 TITLE = "Exit status, reason and raised exception reflect how the run ended"
@@ -71,6 +71,13 @@ def classify(inv):
 
 
 ALLOWED_FAILURES = ("Injected", "FailedStatus", "PlanError", "CallbackError")
+
+KNOWN_PREDICATES = {
+    # D8: see known_findings.json
+    "monitor_lost_in_flight": lambda v, res: v["cls"] == "unexpected-exception:IllegalMessageSequence"
+    and "monitor" in v["detail"]
+    and monitor_lost_in_flight(res),
+}
 
 
 def check(res):
